@@ -377,6 +377,26 @@ func checkBodyWrites(r *Report, p *Prog) {
 				if _, isC := x.X.(*ssa.Const); isC {
 					return []part{{x.X, at}}, true
 				}
+				// []byte(s) / string(b): the same bytes
+				if isStringType(x.Type()) || isStringType(x.X.Type()) {
+					if ps, ok := partsOf(x.X, at, depth+1); ok {
+						return ps, true
+					}
+					return []part{{x.X, at}}, true
+				}
+			case *ssa.BinOp:
+				// a + b on strings: the parts of both, in order
+				if x.Op == token.ADD && isStringType(x.Type()) {
+					var out []part
+					for _, e := range []ssa.Value{x.X, x.Y} {
+						ps, ok := partsOf(e, at, depth+1)
+						if !ok {
+							ps = []part{{e, at}}
+						}
+						out = append(out, ps...)
+					}
+					return out, true
+				}
 			case *ssa.Call:
 				if calleeIs(x, "(*bytes.Buffer).Bytes") || calleeIs(x, "(*bytes.Buffer).String") {
 					buf := rootOfAddr(x.Call.Args[0])
